@@ -461,6 +461,9 @@ def compare(driver, sc: dict, sched_seed: int):
             ok = got.startswith("shape=true") and (want == "wfx:grouped" or (got.endswith("flat=true") and "push=true" in got and "pull=true" in got))
             if ok or nonuniform_cutoff(sc, True):
                 sc["_flat_hyp"] = got.endswith("flat=true")
+                # hypotheses of C03.begin_push_refines_spec for ALL connections of the scenario (flat, nothing cached, every
+                # pushed connection the only writer of its input key)
+                sc["_push_hyp"] = got.endswith("flat=true") and "keys=true" in got and "push=true" in got
                 continue
             return False, {"phase": "step", "index": j, "request": lines[nbuild + j], "impl": want, "model": got,
                            "prefix": lines[nbuild:nbuild + j]}, c
@@ -841,6 +844,8 @@ def run_sched_suite(driver, rng: random.Random, n_scenarios: int, n_schedules: i
                 hist["class:D7-reentrant-paths"] += 1
             if sc.pop("_flat_hyp", False):
                 hist["hypotheses:Flat (deadlock_free_flat applies)"] += 1
+            if sc.pop("_push_hyp", False):
+                hist["hypotheses:flat, pushed only, keys distinct (begin_push_refines_spec applies to every connection)"] += 1
             distinct.add((json.dumps(sc, sort_keys=True), tuple(a[0][1:3] for a in c.actions if a[0][0] == "reply")))
             if not agree:
                 dis.append({"suite": name, "scenario": sc, "schedule_seed": sseed, **detail})
